@@ -763,8 +763,12 @@ def parse_harness():
     # slice forms: Vec / ndarray `let fast_body = kind == "custom" || kind == "custom_to";`, VecDeque `let body = kind == "custom_to";`
     r2 = one(r'let fast_body = (kind == "\w+"(?: \|\| kind == "\w+")*)\s*;', '`let fast_body = kind == ".." || ..;`')
     r3 = one(r'let body = (kind == "\w+"(?: \|\| kind == "\w+")*)\s*;', '`let body = kind == "..";`')
-    # (the apply forms are written out backend by backend: Vec-likes and ndarray `term(true, ..)`, VecDeque / option view `term(buf, ..)`)
-    return ["(HrBufOrBackendNot %s)" % r1, "(HrFastKinds %s)" % strs(r2), "(HrDequeKinds %s)" % strs(r3)]
+    # the apply forms are written out backend by backend: `em.case("exact", &tags("<backend>"), &desc(..), || term(true | buf, <optview>), ..`
+    ap = re.findall(r'em\.case\("exact", &tags\("(\w+)"\), &desc\([^()]*\), \|\| term\((true|buf), (?:true|false)\),', s)
+    if not ap or len(ap) != len(re.findall(r'\|\| term\(\w+, \w+\)', s)):
+        raise Unrec("%s: the per-backend model terms `|| term(true | buf, ..)` of the apply forms are not all recognised" % rel)
+    apply_rules = ['("%s", %s)' % (tag, "true" if b == "true" else "false") for tag, b in ap]
+    return ["(HrBufOrBackendNot %s)" % r1, "(HrFastKinds %s)" % strs(r2), "(HrDequeKinds %s)" % strs(r3)], apply_rules
 
 # ======================================================================================================================
 # 5. rendering
@@ -809,7 +813,9 @@ def render(view, backends, impls, harness):
          '   HrBufOrBackendNot b: `let body = buf || be != "b";` (two-series forms); HrFastKinds ks: `let fast_body = kind == k1 || ..`',
          '   (slice forms on Vec / ndarray); HrDequeKinds ks: `let body = kind == k1 || ..` (slice forms on VecDeque) *)',
          "Inductive drv_harness_rule := HrBufOrBackendNot (b : string) | HrFastKinds (ks : list string) | HrDequeKinds (ks : list string).",
-         "Definition src_harness_c02_rules : list drv_harness_rule := %s." % coq_list(harness),
+         "Definition src_harness_c02_rules : list drv_harness_rule := %s." % coq_list(harness[0]),
+         "(* the apply forms, backend tag by backend tag: true = `term(true, ..)` (index body on both paths), false = `term(buf, ..)` *)",
+         "Definition src_harness_c02_apply : list (string * bool) := %s." % coq_list(harness[1]),
          "End SrcDrv.", ""]
     return o
 
